@@ -5,6 +5,9 @@ import (
 	"go/ast"
 	"go/token"
 	"go/types"
+	"reflect"
+	"sync"
+	"unsafe"
 
 	"github.com/go-courier/logr"
 	gengotypes "github.com/octohelm/gengo/pkg/types"
@@ -72,6 +75,8 @@ func vDo(gen string, c Context, pkgPath, typeName string, seen *int, helper *boo
 	*seen++
 	act := vState.act[gen+"|"+pkgPath+"|"+typeName]
 	vLog(gen + ":gen:" + pkgPath + "." + typeName + ":act=" + vItoa(act) + ":seen=" + vItoa(*seen))
+	genName := gen
+	gen = vIdent(gen) // below, gen is only used inside identifiers
 	render := func() {
 		if !*helper {
 			*helper = true
@@ -81,7 +86,7 @@ func vDo(gen string, c Context, pkgPath, typeName string, seen *int, helper *boo
 		// a reference into another package, so that the per-generator import table matters:
 		// two packages with the same last segment, referenced in opposite order by ga and gb
 		ref := "example.com/x/util"
-		if (gen == "ga") != (typeName == "A") {
+		if (genName == "ga") != (typeName == "A") {
 			ref = "example.com/y/util"
 		}
 		c.RenderT("\nvar ref_@name'_@gen @ref\n", snippetArg("name", typeName), snippetArg("gen", gen), snippetPkgExpose("ref", ref, "T"))
@@ -98,13 +103,13 @@ func vDo(gen string, c Context, pkgPath, typeName string, seen *int, helper *boo
 		return vErrBoom
 	case vActDeferOK:
 		c.Defer(func(c Context) error {
-			vLog(gen + ":defer:" + pkgPath + "." + typeName)
+			vLog(genName + ":defer:" + pkgPath + "." + typeName)
 			c.RenderT("\nvar deferred_@name'_@gen = 1\n", snippetArg("name", typeName), snippetArg("gen", gen))
 			return nil
 		})
 	case vActDeferErr:
 		c.Defer(func(c Context) error {
-			vLog(gen + ":defer:" + pkgPath + "." + typeName)
+			vLog(genName + ":defer:" + pkgPath + "." + typeName)
 			return vErrBoom
 		})
 	case vActBadSyntax:
@@ -269,6 +274,27 @@ func vNewWorldAt(sub string) *vWorld {
 		pkgs: map[string]gengotypes.Package{}, local: map[string]bool{}, sums: map[string]string{}}
 }
 
+// vBaseName: last segment of a relative package path (the package's name).
+func vBaseName(rel string) string {
+	for i := len(rel) - 1; i >= 0; i-- {
+		if rel[i] == '/' {
+			return rel[i+1:]
+		}
+	}
+	return rel
+}
+
+// vIdent: a generator name as part of a Go identifier (a name may contain dots).
+func vIdent(gen string) string {
+	b := []byte(gen)
+	for i := range b {
+		if b[i] == '.' {
+			b[i] = '_'
+		}
+	}
+	return string(b)
+}
+
 // addPkg adds package example.com/m/<rel> with the given pre-existing files
 // (written to the filesystem too) and types.
 func (w *vWorld) addPkg(rel string, direct bool, sum string, pkgDocTags []string, fileNames []string, specs []vTypeSpec) *vPkg {
@@ -276,9 +302,9 @@ func (w *vWorld) addPkg(rel string, direct bool, sum string, pkgDocTags []string
 	dir := w.root + "/" + rel
 	verifsym.FSMkdir(dir)
 	for _, fn := range fileNames {
-		verifsym.FSPut(dir+"/"+fn, "package "+rel+"\n\n// "+fn+"\n")
+		verifsym.FSPut(dir+"/"+fn, "package "+vBaseName(rel)+"\n\n// "+fn+"\n")
 	}
-	p := vNewPkg(w.fset, w.mod, path, rel, dir, pkgDocTags, fileNames, specs)
+	p := vNewPkg(w.fset, w.mod, path, vBaseName(rel), dir, pkgDocTags, fileNames, specs)
 	w.pkgs[path] = p
 	w.local[path] = direct
 	w.sums[path] = sum
@@ -287,27 +313,31 @@ func (w *vWorld) addPkg(rel string, direct bool, sum string, pkgDocTags []string
 
 // addPkgNoFiles adds a package whose only pre-existing file is its source file
 // (left alone if already there from an earlier run of the same history).
+// vGenNames: the generators whose earlier outputs addPkgNoFiles looks for.
+var vGenNames = []string{"ga", "gb"}
+
 func (w *vWorld) addPkgNoFiles(rel string, direct bool, sum string, specs []vTypeSpec) *vPkg {
 	path := w.mod.Path + "/" + rel
 	dir := w.root + "/" + rel
+	base := vBaseName(rel)
 	verifsym.FSMkdir(dir)
-	if _, ok := verifsym.FSGet(dir + "/" + rel + ".go"); !ok {
-		verifsym.FSPut(dir+"/"+rel+".go", "package "+rel+"\n")
+	if _, ok := verifsym.FSGet(dir + "/" + base + ".go"); !ok {
+		verifsym.FSPut(dir+"/"+base+".go", "package "+base+"\n")
 	}
 	// files known to the loader: the source file(s) plus generated files already on disk
-	names := []string{rel + ".go"}
+	names := []string{base + ".go"}
 	for extra := range vFileDocs {
-		if vHasPrefix(extra, rel+"_") {
+		if vHasPrefix(extra, base+"_") {
 			names = append(names, extra)
-			verifsym.FSPut(dir+"/"+extra, "package "+rel+"\n")
+			verifsym.FSPut(dir+"/"+extra, "package "+base+"\n")
 		}
 	}
-	for _, g := range []string{"ga", "gb"} {
+	for _, g := range vGenNames {
 		if _, ok := verifsym.FSGet(dir + "/" + vBase + "." + g + ".go"); ok {
 			names = append(names, vBase+"."+g+".go")
 		}
 	}
-	p := vNewPkg(w.fset, w.mod, path, rel, dir, nil, names, specs)
+	p := vNewPkg(w.fset, w.mod, path, base, dir, nil, names, specs)
 	w.pkgs[path] = p
 	w.local[path] = direct
 	w.sums[path] = sum
@@ -318,9 +348,59 @@ type gengotypesPackage = gengotypes.Package
 
 func (w *vWorld) exec(all, force bool, globals map[string][]string, gens ...Generator) error {
 	u := gengotypes.VerifNewUniverse(w.fset, w.pkgs, w.local, w.sums, w.root)
-	c := &gengoCtx{universe: u, args: &GeneratorArgs{Globals: globals, OutputFileBaseName: vBase, All: all, Force: force}, l: logr.Discard()}
+	c := vNewCtx()
+	c.universe = u
+	c.args = &GeneratorArgs{Globals: globals, OutputFileBaseName: vBase, All: all, Force: force}
+	c.l = logr.Discard()
 	return c.Execute(vBackground(), gens...)
 }
+
+// vNewCtx: a root context made by the real constructor NewContext (so that
+// whatever the constructor initialises is there), whose universe, arguments and
+// logger the caller then replaces by the scenario's. Under the engine
+// NewContext runs on every call with packages.Load returning no package;
+// natively the real NewContext loads a small package of the repository once
+// per process, and every call gets a copy of that context in which
+// constructor-made maps and slices are fresh (empty) ones.
+func vNewCtx() *gengoCtx {
+	if verifsym.Symbolic() {
+		verifsym.Provide("packages.Load", []*packages.Package{})
+		ex, err := NewContext(&GeneratorArgs{Entrypoint: []string{"example.com/none"}})
+		if err != nil {
+			panic("harness: NewContext failed: " + err.Error())
+		}
+		return ex.(*gengoCtx)
+	}
+	vProtoOnce.Do(func() {
+		ex, err := NewContext(&GeneratorArgs{Entrypoint: []string{"github.com/octohelm/gengo/pkg/sumfile"}})
+		if err != nil {
+			panic("harness: NewContext failed: " + err.Error())
+		}
+		vProtoCtx = ex.(*gengoCtx)
+	})
+	c := *vProtoCtx
+	rv := reflect.ValueOf(&c).Elem()
+	for i := 0; i < rv.NumField(); i++ {
+		f := rv.Field(i)
+		f = reflect.NewAt(f.Type(), unsafe.Pointer(f.UnsafeAddr())).Elem()
+		switch f.Kind() {
+		case reflect.Map:
+			if !f.IsNil() {
+				f.Set(reflect.MakeMap(f.Type()))
+			}
+		case reflect.Slice:
+			if !f.IsNil() {
+				f.Set(reflect.MakeSlice(f.Type(), 0, 0))
+			}
+		}
+	}
+	return &c
+}
+
+var (
+	vProtoOnce sync.Once
+	vProtoCtx  *gengoCtx
+)
 
 func vEnabled(gen string) map[string][]string {
 	return map[string][]string{"gengo:" + gen: {"true"}}
